@@ -84,6 +84,12 @@ func fieldMutants(b []byte, base int, w *zwalk, label string, uvFull bool) []Mut
 				if !uvFull && i%3 != (off%3) {
 					continue
 				}
+				// VNG reads its metadata with zngio's default 1 GiB limit, so a
+				// declared size just below it is a legitimate (slow) 1 GiB
+				// allocation, not a finding
+				if !uvFull && (h.name == "2^26" || h.name == "2^30") {
+					continue
+				}
 				hot := f.Label == "len" || f.Label == "usize" || f.Label == "namelen" || f.Label == "valid" || f.Label == "tag" || f.Label == "tdcount"
 				out = append(out, Mutant{Data: replaceAt(b, off, f.Len, h.enc), Label: fmt.Sprintf("%s:%s@%d=%s", label, f.Label, off, h.name), Hot: hot && uvFull})
 			}
